@@ -618,10 +618,23 @@ func (r *scanner) checkCompactRace(ctx context.Context, revision uint64, compact
 	if compact {
 		// compact operation, just try to set the compact revision
 		// if it's error, try next time
+		// the record is only ever raised: a compaction that overlaps a newer one
+		// must not put its older revision back
+		val, err := r.store.Get(ctx, r.config.CompactKey)
+		if err != nil && err != storage.ErrKeyNotFound {
+			return err
+		}
+		if len(val) == 8 && binary.BigEndian.Uint64(val) >= revision {
+			return nil
+		}
 		bs := make([]byte, 8)
 		binary.BigEndian.PutUint64(bs, revision)
 		batch := r.store.BeginBatchWrite()
-		batch.Put(r.config.CompactKey, bs, 0)
+		if len(val) > 0 {
+			batch.CAS(r.config.CompactKey, bs, val, 0)
+		} else {
+			batch.PutIfNotExist(r.config.CompactKey, bs, 0)
+		}
 		return batch.Commit(ctx)
 	}
 
